@@ -23,6 +23,7 @@ type Script struct {
 	NoReadBody   bool     // do not read the request body
 	WaitFlushAck chan int // lock-step streaming: after flushing part k, block until k is acknowledged
 	Hijack       func(c net.Conn, rw *bufio.ReadWriter, r *http.Request)
+	Echo         []string // request headers copied into the response
 }
 
 // Seen is what the backend received.
@@ -187,6 +188,11 @@ func (b *Backend) serve(w http.ResponseWriter, r *http.Request) {
 	}
 	for _, h := range sc.Header {
 		w.Header().Add(h.Name, h.Value)
+	}
+	for _, n := range sc.Echo {
+		for _, v := range r.Header.Values(n) {
+			w.Header().Add(n, v)
+		}
 	}
 	total := 0
 	for _, p := range sc.Parts {
